@@ -227,6 +227,10 @@ type Target struct {
 	Asserts map[string][2]string
 	ErrNil  string
 	KeyVal  string
+	// NakedRet: the Gallina term a `return` WITHOUT results stands for, and (for a whole-function
+	// target) what falling off the end of the body stands for: functions without results whose
+	// effects are threaded through a trace variable by stmt-hints (C10: handler dispatch).
+	NakedRet string
 }
 
 type fnctx struct {
@@ -498,6 +502,9 @@ func (c *fnctx) stmts(list []ast.Stmt, rest string) string {
 	switch x := s.(type) {
 	case *ast.ReturnStmt:
 		if len(x.Results) == 0 {
+			if c.tg.NakedRet != "" {
+				return c.ret(c.tg.NakedRet)
+			}
 			failf("%s: naked return", c.t.pos(s))
 		}
 		idx := 0
@@ -860,7 +867,11 @@ func (t *translator) emitFunc(tg *Target, w *bytes.Buffer) {
 			body = tg.Pre + "\n  " + body
 		}
 	} else {
-		body = c.stmts(fd.Body.List, "")
+		end := ""
+		if tg.NakedRet != "" && fd.Type.Results == nil {
+			end = c.ret(tg.NakedRet)
+		}
+		body = c.stmts(fd.Body.List, end)
 	}
 	p := t.fset.Position(fd.Pos())
 	e := t.fset.Position(fd.End())
@@ -876,6 +887,9 @@ func (t *translator) emitFunc(tg *Target, w *bytes.Buffer) {
 		if tg.Pre != "" {
 			fmt.Fprintf(w, "   prefix: %s\n", tg.Pre)
 		}
+	}
+	if tg.NakedRet != "" {
+		fmt.Fprintf(w, "   a return without results (and the end of a body without results)  =>  %s\n", tg.NakedRet)
 	}
 	if kv != nil {
 		fmt.Fprintf(w, "   only the value of the composite-literal entry at line %d: %s\n", t.fset.Position(kv.Pos()).Line, t.src(kv))
